@@ -293,7 +293,11 @@ func (propC15) Judge(sc *Scenario) *Verdict {
 	for _, op := range sc.Ops {
 		kinds = append(kinds, op.Kind)
 	}
-	v.Sig = "C15|" + strings.Join(kinds, ",") + "|" + strings.Join(sortedKeys(boolMap(sites)), ",")
+	kset := map[string]bool{}
+	for _, k := range kinds {
+		kset[k] = true
+	}
+	v.Sig = "C15|" + strings.Join(sortedKeys(kset), ",") + "|" + strings.Join(sortedKeys(boolMap(sites)), ",")
 	v.NonTrivial = len(sites) > 0 && permuted > 0
 	return v
 }
